@@ -119,7 +119,7 @@ where
 
         // Re-enable the interrupt, if it was disabled
         if self.device.config.int_config.get_config1().bits() != tmp_int_config1.bits() {
-            self.device.interface.write_register(self.device.config.int_config.get_config0())?;
+            self.device.interface.write_register(self.device.config.int_config.get_config1())?;
         }
         Ok(())
     }
